@@ -314,6 +314,11 @@ var Shadows = map[string]reflect.Type{
 	"Person": reflect.TypeOf(other.Person{}),
 	"M":      reflect.TypeOf(other.M{}),
 	"Ints":   reflect.TypeOf(other.Ints{}),
+	"Address": reflect.TypeOf(other.Address{}),
+	"Omit":    reflect.TypeOf(other.Omit{}),
+	"MS":      reflect.TypeOf(other.MS{}),
+	"Kinds":   reflect.TypeOf(other.Kinds{}),
+	"S":       reflect.TypeOf(other.S{}),
 }
 
 // ByName finds an entry.
